@@ -246,25 +246,27 @@ def C16_4_5(ctx, facts):
             a1 = g.roots(fb[0].args[1])
             ok2 = any("local_address_ipv4" in r.desc for r in a0 if r.kind == "arg") and any("local_address_ipv6" in r.desc for r in a1 if r.kind == "arg")
         ctx.check(ok2, "connecting|preference-from-binding", "the preference is IpVersion::from_binding(local_address_ipv4, local_address_ipv6)", "preference roots %s" % sorted(map(repr, rr)), c.where())
-    fbf = facts.unit(facts.fn("client::conn::dns::IpVersion::from_binding"))
+    fbf = facts.unit(facts.fn("client::conn::dns::IpVersion::from_binding"), expand=True)
     ap = AbsPaths(fbf)
-    some = ("variant", "Some", ())
+    some = ("variant", "Some", ((0, ("const", "LOCAL_ADDR")),))
     none = ("variant", "None", ())
     want = {(True, True): "V6", (True, False): "V4", (False, True): "V6", (False, False): None}
     for (h4, h6), w in want.items():
         try:
-            path = ap.trace(0, {1: some if h4 else none, 2: some if h6 else none})
+            outs = ap.outcomes(state={1: some if h4 else none, 2: some if h6 else none})
         except AbsPaths.Undecided as e:
             ctx.undecided("from_binding|%s,%s" % (h4, h6), str(e))
             continue
-        got = "?"
-        for b in path:
-            for s in fbf.stmts(b):
-                if s["k"] == "assign" and s["r"]["k"] == "agg" and (s["r"].get("adt") or "").endswith("IpVersion"):
-                    got = s["r"]["v"]
-                if s["k"] == "assign" and s["p"]["l"] == 0 and s["r"]["k"] == "agg" and s["r"].get("v") == "None":
-                    got = None
-        ctx.check(got == w, "from_binding|v4=%s,v6=%s" % (h4, h6), "from_binding(%s, %s) = %s" % (h4, h6, w), "from_binding(%s, %s) = %s, expected %s" % (h4, h6, got, w), fbf.where())
+        got = set()
+        for (v, _) in outs:
+            if v is not None and v[0] == "variant" and v[1] == "None":
+                got.add(None)
+            elif v is not None and v[0] == "variant" and v[1] == "Some" and dict(v[2]).get(0) is not None and dict(v[2])[0][0] == "variant":
+                got.add(dict(v[2])[0][1])
+            else:
+                got.add("?")
+        ctx.check(got == {w}, "from_binding|v4=%s,v6=%s" % (h4, h6), "from_binding(%s, %s) = %s" % (h4, h6, w),
+                  "from_binding(%s, %s) = %s, expected %s" % (h4, h6, sorted(map(str, got)), w), fbf.where())
 
 
 def C16_7(ctx, facts):
@@ -280,7 +282,13 @@ def C16_7(ctx, facts):
         st_name = norm(g.d.get("impl_self", "")).split("::")[-1]
         for fam in ("V4", "V6"):
             val = ("refval", ("variant", fam, ((0, ("const", "ADDR")),)))
-            oracles = [(r"SocketAddr::ip$", lambda site, vals, fam=fam: ("variant", fam, ((0, ("const", "IP")),)))]
+            def is_fam(site, vals):
+                v = vals[0] if vals else None
+                if v is None or v[0] != "variant" or v[1] not in ("V4", "V6"):
+                    return None
+                return ("const", "true" if ("V4" if norm(site.name).endswith("is_ipv4") else "V6") == v[1] else "false")
+            oracles = [(r"SocketAddr::ip$", lambda site, vals, fam=fam: ("variant", fam, ((0, ("const", "IP")),))),
+                       (r"SocketAddr::is_ipv[46]$|IpAddr::is_ipv[46]$", is_fam)]
             try:
                 outs = AbsPaths(u, oracles=oracles).outcomes(state={1: val})
             except AbsPaths.Undecided as e:
